@@ -429,7 +429,8 @@ class MarkovNetwork(UndirectedGraph):
             order = []
 
             cardinalities = self.get_cardinality()
-            for index in range(self.number_of_nodes()):
+            # Isolated nodes are not part of the working graph and need no elimination.
+            for index in range(graph_copy.number_of_nodes()):
                 # S represents the size of clique created by deleting the
                 # node from the graph
                 S = {}
@@ -478,6 +479,8 @@ class MarkovNetwork(UndirectedGraph):
 
         graph_copy = nx.Graph(self.edges())
         for node in order:
+            if node not in graph_copy:
+                continue
             for edge in itertools.combinations(graph_copy.neighbors(node), 2):
                 graph_copy.add_edge(edge[0], edge[1])
                 edge_set.add(edge)
@@ -490,6 +493,7 @@ class MarkovNetwork(UndirectedGraph):
 
         else:
             graph_copy = MarkovNetwork(self.edges())
+            graph_copy.add_nodes_from(self.nodes())
             for edge in edge_set:
                 graph_copy.add_edge(edge[0], edge[1])
             return graph_copy
